@@ -896,16 +896,35 @@ func (v *ValidationExpr) Dup() *ValidationExpr {
 		req = make([]string, len(v.Required))
 		copy(req, v.Required)
 	}
+	var vals []any
+	if v.Values != nil {
+		vals = make([]any, len(v.Values))
+		copy(vals, v.Values)
+	}
+	dupFloat := func(f *float64) *float64 {
+		if f == nil {
+			return nil
+		}
+		d := *f
+		return &d
+	}
+	dupInt := func(i *int) *int {
+		if i == nil {
+			return nil
+		}
+		d := *i
+		return &d
+	}
 	return &ValidationExpr{
-		Values:           v.Values,
+		Values:           vals,
 		Format:           v.Format,
 		Pattern:          v.Pattern,
-		ExclusiveMinimum: v.ExclusiveMinimum,
-		Minimum:          v.Minimum,
-		ExclusiveMaximum: v.ExclusiveMaximum,
-		Maximum:          v.Maximum,
-		MinLength:        v.MinLength,
-		MaxLength:        v.MaxLength,
+		ExclusiveMinimum: dupFloat(v.ExclusiveMinimum),
+		Minimum:          dupFloat(v.Minimum),
+		ExclusiveMaximum: dupFloat(v.ExclusiveMaximum),
+		Maximum:          dupFloat(v.Maximum),
+		MinLength:        dupInt(v.MinLength),
+		MaxLength:        dupInt(v.MaxLength),
 		Required:         req,
 	}
 }
